@@ -66,3 +66,65 @@ Example C19_bytes_example :
   to_serde_json_object_w (enc (VArr [c19_doc])) = Ok None /\
   to_serde_json_w (enc (VArr [VNum (NFloat F_INF)])) = Err EOther.
 Proof. vm_compute. repeat split; reflexivity. Qed.
+
+(* ---- the first sentence of the property: "converting JSONB bytes (or the value tree) to a serde_json value gives the
+   same document an independent strict parser reads from its text rendering: same structure, strings, member sets, and
+   each number as the same u64, i64 or f64".  The independent strict parser is the declarative RFC 8259 grammar
+   `rfc_text t d` (JsonGrammar.v); `sj_of_value d` (SerdeRfc.v) is the serde_json value a reader holding d hands out, with
+   serde_json's classification of numbers (non-negative integer fitting u64: PosInt, negative fitting i64: NegInt, else
+   Float; members in key order) -- a structural map written without reference to the conversion under test.  For every
+   valid document with finite numbers: to_string and to_pretty_string of the bytes print RFC 8259 texts of ONE document
+   d, equal to v under compare, and to_serde_json of the same bytes is sj_of_value d -- and of any d' the grammar reads
+   from either text, because the grammar is functional.  (pf = the shortest-round-trip float printer, a parameter of the
+   model; the hypothesis says it prints an RFC number denoting the float it was given.) *)
+From JB Require Import Render JsonGrammar RenderRfc RenderWalk SerdeRfc.
+Theorem C19_serde_value_is_what_the_rendering_denotes : forall pf v,
+  wfb v = true -> top_ok v -> finite_numbers v = true -> (forall b, In b (floats_of v) -> rfc_float_text pf b) ->
+  exists tc tp d,
+    to_string_w' pf (enc v) = Ok tc /\ to_pretty_string_w' pf (enc v) = Ok tp /\
+    rfc_text tc d /\ rfc_text tp d /\ cmp_value d v = Eq /\
+    to_serde_json_w (enc v) = Ok (sj_of_value d) /\
+    (forall d', rfc_text tc d' \/ rfc_text tp d' -> to_serde_json_w (enc v) = Ok (sj_of_value d')).
+Proof. exact serde_value_is_what_the_rendering_denotes. Qed.
+Print Assumptions C19_serde_value_is_what_the_rendering_denotes.
+
+(* the same for the value tree (From<Value> for serde_json::Value and to_serde_json on a tree), compact or pretty *)
+Theorem C19_serde_value_is_what_the_rendering_denotes_tree : forall pf pretty v,
+  wf_shape v = true -> finite_numbers v = true -> (forall b, In b (floats_of v) -> rfc_float_text pf b) ->
+  exists d, rfc_text (render pf pretty 0 v) d /\ cmp_value d v = Eq /\
+            to_serde_json_t v = Ok (sj_of_value d) /\ value_to_serde v = Ok (sj_of_value d) /\
+            forall d', rfc_text (render pf pretty 0 v) d' -> to_serde_json_t v = Ok (sj_of_value d').
+Proof. exact serde_value_is_what_the_rendering_denotes_t. Qed.
+Print Assumptions C19_serde_value_is_what_the_rendering_denotes_tree.
+
+(* the conversion of a finite document never fails, whatever the shape of the tree, and is the structural map *)
+Theorem C19_conversion_is_structural : forall v, finite_numbers v = true ->
+  to_serde_json_t v = Ok (sj_of_value v) /\ value_to_serde v = Ok (sj_of_value v) /\ sj_of_value (unsign v) = sj_of_value v.
+Proof. intros v H. split; [|split]; [apply to_serde_is_sj_of_value; exact H|apply to_serde_is_sj_of_value; exact H|apply sj_of_unsign]. Qed.
+Print Assumptions C19_conversion_is_structural.
+
+(* not vacuous: c19_doc (numbers of all three kinds, among them the double 1.5 and the Int64 0 that a reader sees as the
+   u64 0) with a printer that prints "1.5" satisfies every hypothesis; the document denoted and its reader's value *)
+Example C19_rendering_example :
+  let pf := fun _ : N => [49; 46; 53] in
+  wfb c19_doc = true /\ top_ok c19_doc /\ finite_numbers c19_doc = true /\
+  (forall b, In b (floats_of c19_doc) -> rfc_float_text pf b) /\
+  to_string_w' pf (enc c19_doc) = Ok (render pf false 0 c19_doc) /\
+  rfc_text (render pf false 0 c19_doc) (denoted c19_doc) /\
+  denoted c19_doc <> c19_doc /\
+  to_serde_json_w (enc c19_doc) = Ok (sj_of_value (denoted c19_doc)).
+Proof.
+  intros pf.
+  assert (Hw : wfb c19_doc = true) by (vm_compute; reflexivity).
+  assert (Ht : top_ok c19_doc) by (vm_compute; try reflexivity; try exact I; auto).
+  assert (Hf : finite_numbers c19_doc = true) by (vm_compute; reflexivity).
+  assert (Hpf : forall b, In b (floats_of c19_doc) -> rfc_float_text pf b).
+  { intros b Hb. vm_compute in Hb. destruct Hb as [<-|[]]. exact rfc_float_text_example. }
+  split; [exact Hw|]. split; [exact Ht|]. split; [exact Hf|]. split; [exact Hpf|].
+  split; [|split; [|split]].
+  - vm_compute. reflexivity.
+  - destruct (to_string_rfc pf c19_doc Hw Ht Hf Hpf) as (t & E & R).
+    replace (render pf false 0 c19_doc) with t; [exact R|]. vm_compute in E. injection E as <-. vm_compute. reflexivity.
+  - vm_compute. discriminate.
+  - apply to_serde_json_w_rfc; assumption.
+Qed.
